@@ -33,6 +33,16 @@ CLAIMED = {
             "dimension 1..2 (3 in the thorough tier).", "4/C27",
             "path-exploring symbolic execution of the real prox code (forks on max/if) + z3 nlsat per obligation; float replay of models",
             "Bounded in the vector dimension (n <= 2 quick, n <= 3 thorough; nu <= 3)."),
+    "C02": ("proof", "Round trips Log(Exp psi)=psi, Exp(Log A)=A, Spurrier (all argmax paths), T*T_inv=I on [0,pi) and (pi,2pi), spin, and the SE(3) "
+            "round trips are decided per path of the real code with rotation vectors given by a polynomial cone parametrisation and angles by a free "
+            "Weierstrass symbol; exact half turns by the cotangent chart. The rounding-distance clause is outside (no IEEE model of arccos).",
+            "4/C02", "path-exploring symbolic execution of the real rotation code (sqrt/arccos resolved by solver-checked hints) + z3 nlsat per scalar obligation; float replay of models",
+            "Known finding C02-log-so3-half-turn is reported as KNOWN-FINDING."),
+    "C03": ("proof", "Each derivative routine is compared, entry by entry, with the chain-rule tangent of its primal run on jets over the cone "
+            "coordinates (and at psi = 0 exactly); Log_SO3_A on general matrices with trace tied to an angle; Log_SE3_H along SE(3) tangents. "
+            "Exact real arithmetic; float cancellation for tiny |psi| is outside.", "4/C03",
+            "symbolic execution of the real code on z3-term jets + z3 nlsat per scalar obligation; float replay of models",
+            "Some Log_SE3_H translational rows stay undecided within the time-out and are listed as inconclusive in the evidence."),
 }
 
 NOT_APPLICABLE = {
